@@ -5,6 +5,7 @@
  *     api     0 one of_decode_with_new_symbol per listed ESI (duplicates allowed)
  *             1 one of_set_available_symbols with the set of listed ESIs
  *             2 as 0, but the state is reported only after the LAST call (large codes: one S token instead of one per call)
+ *             3 two of_set_available_symbols calls with cumulative tables: the first half of the listed ESIs, then all of them
  *     cbmode  0 no callback, 1 callback returns a buffer, 2 returns NULL, 3 alternates
  *     finish  0 no, 1 of_finish_decoding at the end
  *     role    2 decoder session is OF_DECODER, 3 OF_ENCODER_AND_DECODER
@@ -265,6 +266,13 @@ int main(void)
 					print_masks(dec, codec, k, n, api == 0);
 				}
 			} else {
+				if (api == 3) {
+					for (i = 0; i < (UINT32)nesi / 2; i++) avail_tab[esis[i]] = recv_tab[esis[i]];
+					LIB_BEGIN(); st = of_set_available_symbols(dec, avail_tab); LIB_END();
+					if (nhl < MAXHL) hl[nhl++] = lib_blocks;
+					fprintf(out, " S%d%d", st, of_is_decoding_complete(dec) ? 1 : 0);
+					print_masks(dec, codec, k, n, 1);
+				}
 				for (i = 0; i < (UINT32)nesi; i++) avail_tab[esis[i]] = recv_tab[esis[i]];
 				LIB_BEGIN(); st = of_set_available_symbols(dec, avail_tab); LIB_END();
 				if (nhl < MAXHL) hl[nhl++] = lib_blocks;
